@@ -164,6 +164,36 @@ Example c09_demo_manual_non_boundary :
   /\ manual real_consts demo_manual_req demo7 = (demo7, Err 5).
 Proof. exact demo_manual_non_boundary. Qed.
 
+(* ---------- concurrent schedule / auto calls ---------- *)
+(* No lock spans a call: every read (plan, in-flight scan, re-plan, replay snapshot, base look-up) and every append
+   is a separate atomic step (`astep`); `sys_steps` is any interleaving of any number of calls.  From a valid stream
+   whose job frames are well bracketed, every interleaving ends in a valid stream (seqs strictly increase) in which
+   every job id has exactly one job_spawned frame, at most one job_ended frame, and the job_ended comes after
+   its job_spawned (bracket_ok). *)
+Theorem c09_concurrent_valid_and_job_bracket : forall (K : consts) (s : st) (calls : list call) (s' : st) (acts' : list astate),
+  valid (log s) -> bracket_ok (log s) ->
+  sys_steps K (s, map AStart calls) (s', acts') ->
+  valid (log s') /\ bracket_ok (log s').
+Proof. exact concurrent_bracket. Qed.
+Print Assumptions c09_concurrent_valid_and_job_bracket.
+
+(* the executable scheduler the correspondence drives (quantum = pending append + the reads that follow it) *)
+Theorem c09_run_sched_bracket : forall (K : consts) (s : st) (calls : list call) (schedule : list N),
+  valid (log s) -> bracket_ok (log s) ->
+  valid (log (fst (run_sched K s (map AStart calls) schedule)))
+  /\ bracket_ok (log (fst (run_sched K s (map AStart calls) schedule))).
+Proof. exact run_sched_bracket. Qed.
+Print Assumptions c09_run_sched_bracket.
+
+(* stated as observed (replay-safe, not exclusive): two racing schedule calls with block_on_inflight both spawn a job
+   and both checkpoint the same cut point; the later frame is the one cut_points reports *)
+Example c09_concurrent_double_spawn_observed :
+  valid (log race_state) /\ bracket_ok (log race_state)
+  /\ job_ids (log race_end) = [1; 2] /\ ended_ids (log race_end) = [1; 2]
+  /\ map ck_to (ckpts (log race_end)) = [2; 2]
+  /\ map (fun c => (cp_seq c, cp_done c, cp_ck c)) (cut_points real_consts 2 32 (log race_end)) = [(2, true, Some 10)].
+Proof. exact race_facts. Qed.
+
 (* non-vacuity: a reachable thread with two cut points, one checkpointed twice (the later frame wins) *)
 Example c09_demo_cut_points :
   map (fun c => (cp_ord c, cp_seq c, cp_mid c, cp_done c, cp_ck c)) (cut_points real_consts 2 32 demo_log)
